@@ -388,7 +388,7 @@ def generation_counter(repo):
         err("slot.rs: `generation` field of Slot not found in the expected shape")
         return 0, 0, 0, 0
     slot_bits = 64 if m.group(1) == "usize" else int(m.group(2))
-    m0 = re.search(r"fn new\(location: Location<R>\) -> Self \{ Self \{ generation: (\d+), location: Some\(location\), \} \}", t)
+    m0 = re.search(r"fn new\(location: Location<R>\) -> Self \{ Self \{ generation: (\d+), location: Some\(location\),? \} \}", t)
     if not m0:
         err("slot.rs: Slot::new does not have the shape `Self { generation: <literal>, location: Some(location) }`")
     start = int(m0.group(1)) if m0 else 0
@@ -401,7 +401,7 @@ def generation_counter(repo):
     rel2 = "entity/identifier/mod.rs"
     raw2 = strip_comments(read(repo, rel2))
     t2 = " ".join(raw2.split())
-    m2 = re.search(r"pub struct Identifier \{ pub\(crate\) index: usize, pub\(crate\) generation: (u(\d+)|usize), \}", t2)
+    m2 = re.search(r"pub struct Identifier \{ pub\(crate\) index: usize, pub\(crate\) generation: (u(\d+)|usize),? \}", t2)
     if not m2:
         err("identifier/mod.rs: `generation` field of entity::Identifier not found in the expected shape")
         return slot_bits, 0, start, step
